@@ -13,7 +13,7 @@ static const unsigned MAX_K = 64;
 
 static const Kind KIND_TAB[32] = {K_MALLOC, K_MALLOC, K_MALLOC, K_MALLOC, K_MALLOC, K_CALLOC, K_CALLOC, K_REALLOC, K_REALLOC, K_REALLOC, K_AMALLOC, K_AMALLOC,
                                   K_AMALLOC, K_AREALLOC, K_AREALLOC, K_PMEMALIGN, K_PMEMALIGN, K_FREE, K_FREE, K_FREE, K_FREE, K_MSIZE, K_CHECK, K_CLEAN_ALL,
-                                  K_THR_EXIT, K_RESET, K_IDENTIFY, K_IDENTIFY, K_CXX, K_CXX, K_MALLOC, K_FREE};
+                                  K_THR_EXIT, K_RESET, K_IDENTIFY, K_FILL, K_CXX, K_CXX, K_MALLOC, K_FREE};
 
 static const size_t SMAX = SIZE_MAX;
 static const size_t EXT_SIZES[] = {SMAX, SMAX - 1, SMAX - 7, SMAX - 64, SMAX - 103, SMAX - 104, SMAX - 167, SMAX - 168, SMAX - 4096, SMAX - 8192, SMAX - 16384, SMAX - 65536,
